@@ -6,6 +6,7 @@ EXTENDS MC_Matchers
 (*  k = "rl"   a matcher list with its printed form                          *)
 (*  k = "sem"  a matcher set (OR of AND-lists), a label set and the verdicts *)
 (*  k = "lang" a pattern, a value and whether the value is in Lang(pattern)  *)
+(*             (dotall: the verdict if '.' also matched the line feed)       *)
 Out(x) == PrintT("@@H " \o ToJson(x))
 
 EmitParse == ps.pc = "idle" =>
@@ -21,7 +22,8 @@ EmitPrint == ps.pc = "idle" =>
 EmitSem == (inp = << >> /\ ps.pc = "idle") =>
   /\ \A st \in SemSets, n \in XNames :
        Out([k |-> "sem", sets |-> st, lsn |-> n, ls |-> XLS[n],
-            all |-> [i \in 1 .. Len(st) |-> Lb!MatchesAll(st[i], XLS[n])],
-            any |-> Lb!MatchesAny(st, XLS[n])])
-  /\ \A p \in Pats, v \in Lb!Values : Out([k |-> "lang", src |-> p, val |-> v, in |-> v \in Lb!Lang(p)])
+            all |-> [i \in 1 .. Len(st) |-> Sx!MatchesAll(st[i], XLS[n])],
+            any |-> Sx!MatchesAny(st, XLS[n])])
+  /\ \A p \in Pats, v \in Sx!Values : Out([k |-> "lang", src |-> p, val |-> v, in |-> v \in Sx!Lang(p),
+                                             dotall |-> v \in Sx!DotAllTab[p]])
 =============================================================================
